@@ -235,3 +235,28 @@ Proof. destruct statement_example as [H [t [H1 [H2 _]]]]. split; [exact H|]. exi
 Example C07_label_example :
   swf ex_l /\ exists t, generate_stmt nat false 80 (embS nat ex_l) true Z0 = GOk (t, Z0) /\ despace2 t = spell (stoks false ex_l).
 Proof. destruct label_example as [H [t [H1 [H2 _]]]]. split; [exact H|]. exists t. split; assumption. Qed.
+
+(* WHOLE PROGRAMS, parser side, on parse_tokens itself (proofs/FuncTrip.v): a sequence of function definitions `T f ( ) { ... }` over the
+   statement language with declarations; the tokens of the program followed by the end of the input are parsed, from the initial state
+   of parse(), to exactly the FileAST the program stands for ([prog_emb]: one FuncDef per definition, Decl > FuncDecl > TypeDecl >
+   IdentifierType, no parameter list, the body a Compound), every token consumed, at most three next() calls per token.
+   (Generator side of FuncDef / FileAST: by correspondence only.) *)
+From PV Require FuncTrip.
+Theorem C07_parse_of_generated_program : forall (P: Type) rp (p: list FuncTrip.fdef), Forall FuncTrip.fwf p ->
+  forall items le eof file, Spell P le (FuncTrip.prog_toks rp p) -> UpR P [[]] items le -> List.length items = List.length le ->
+  exists f0 N s', (forall fu, (f0 <= fu)%nat -> parse_tokens P fu (init_pstate P items eof file) = Ok (N, s')) /\
+    strip N = FuncTrip.prog_emb rp p /\ ParserBase.idx P s' = List.length le /\ (N.to_nat (ParserBase.ticks P s') <= 3 * List.length le)%nat.
+Proof. exact FuncTrip.parse_of_generated_program. Qed.
+Print Assumptions C07_parse_of_generated_program.
+
+(* non-vacuity: `int main ( ) { int x = 1 ; unsigned long y ; y = x + 2 ; { char c = ( x , y ) ; } return y ; } void g ( ) { }` meets the
+   hypotheses, and the model's parse_tokens, evaluated in the kernel, returns prog_emb of it after 40 tokens *)
+Example C07_program_example :
+  Forall FuncTrip.fwf FuncTrip.ex_prog /\ Spell nat FuncTrip.ex_prog_toks (FuncTrip.prog_toks false FuncTrip.ex_prog) /\
+  UpR nat [[]] FuncTrip.ex_prog_items FuncTrip.ex_prog_toks /\ List.length FuncTrip.ex_prog_items = List.length FuncTrip.ex_prog_toks /\
+  match parse_tokens nat 200 (init_pstate nat FuncTrip.ex_prog_items 0 0) with
+  | Ok (N, s') => strip N = FuncTrip.prog_emb false FuncTrip.ex_prog /\ ParserBase.idx nat s' = List.length FuncTrip.ex_prog_toks /\
+                  (N.to_nat (ParserBase.ticks nat s') <= 3 * List.length FuncTrip.ex_prog_toks)%nat
+  | _ => False
+  end.
+Proof. exact FuncTrip.program_example. Qed.
